@@ -144,9 +144,8 @@ StepPut(e) ==
 
 StepStreamEnd(e) ==
   /\ e.ev \in {"CtxDone", "Close"}
-  /\ LET s == str[e.sid]
-         A1 == IF e.ev = "CtxDone" /\ Unstored(s) THEN Conf(e, "a verified in-order item was not stored") ELSE {}
-     IN alarms' = alarms \cup A1
+  \* (an item taken just before the cancellation may legitimately fail to be stored: Put returns ctx.Err())
+  /\ alarms' = alarms
   /\ str' = [str EXCEPT ![e.sid].open = FALSE, ![e.sid].pendStorable = FALSE]
   /\ UNCHANGED <<sc, ts, info>>
 
